@@ -9,6 +9,7 @@ Scheds == ndJsonDeserialize("labels.ndjson")
 RInit == Init /\ j \in 1..Len(Scheds) /\ k = 1
 RNext == /\ k <= Len(Scheds[j])
          /\ Step(Scheds[j][k])
+         /\ marks' = marks
          /\ obs' = Fold(obs, emitv' \o StateEvs)
          /\ hist' = Append(hist, [l |-> Scheds[j][k], evs |-> emitv' \o StateEvs, post |-> Post'])
          /\ k' = k + 1 /\ j' = j
